@@ -679,7 +679,7 @@ func (r *Runner) exec(op map[string]any) (string, error) {
 			}
 			taken = true
 			e.AOF.Flush()
-			imgErr = exec.Command("cp", "-a", "--sparse=always", r.Dir, img).Run()
+			imgErr = copyImage(r.Dir, img)
 		}
 		verifhook.Set(func(name string, kv []any) {
 			if r.ExtraHook != nil {
@@ -742,7 +742,7 @@ func (r *Runner) exec(op map[string]any) (string, error) {
 			}
 			if name == "snap.renamed" && !taken {
 				taken = true
-				imgErr = exec.Command("cp", "-a", "--sparse=always", r.Dir, img).Run()
+				imgErr = copyImage(r.Dir, img)
 			}
 		})
 		serr := e.SaveSnapshot()
@@ -1118,4 +1118,21 @@ func keysOf(m map[string]bool) []string {
 	}
 	sort.Strings(out)
 	return out
+}
+
+// copyImage copies the data directory as the OS sees it right now. The engine keeps running meanwhile (a crash image is
+// taken from inside a hook), so a transient file can vanish between cp's directory scan and its open: retried, and a copy
+// that only missed such files is kept.
+func copyImage(src, dst string) error {
+	var err error
+	for i := 0; i < 3; i++ {
+		os.RemoveAll(dst)
+		if err = exec.Command("cp", "-a", "--sparse=always", src, dst).Run(); err == nil {
+			return nil
+		}
+	}
+	if _, serr := os.Stat(filepath.Join(dst, "kektordb.aof")); serr == nil {
+		return nil
+	}
+	return err
 }
